@@ -1,6 +1,6 @@
 """C17 — mini-batching is an aligned partition of the data set.
 
-All (L, B<=L) up to the bound x key in {None, 4 keys derived from VERIF_SEED} x 1..3 co-batched multi-images with
+All (L, B<=L) up to the bound x key in {None, 12 keys derived from VERIF_SEED} x 1..3 co-batched multi-images with
 different type sets x every device count dividing B. Samples carry their own index as value, so pairing is decided
 exactly.
 """
@@ -23,14 +23,14 @@ ASSUMPTIONS = [
 
 
 def bounds(tier):
-    return {"L": list(range(1, 9 if tier == "quick" else 13)), "B": "1..L", "keys": ["None", "4 PRNG keys from VERIF_SEED"], "co_batched": [1, 2, 3], "devices": "all divisors of B"}
+    return {"L": list(range(1, 9 if tier == "quick" else 13)), "B": "1..L", "keys": ["None", "12 (quick) / 24 (thorough) PRNG keys from VERIF_SEED"], "co_batched": [1, 2, 3], "devices": "all divisors of B"}
 
 
 def cases(tier, seed):
     out = []
     for L in range(1, 9 if tier == "quick" else 13):
         for B in range(1, L + 1):
-            for key in (None, 0, 1, 2, 3):
+            for key in (None,) + tuple(range(12 if tier == "quick" else 24)):
                 for nmi in (1, 2, 3):
                     out.append({"L": L, "B": B, "key": key, "nmi": nmi})
     out.sort(key=lambda c: (c["L"], c["nmi"], c["key"] is not None, c["B"]))
